@@ -379,7 +379,7 @@ fn gen_script(rng: &mut Rng, len: usize, flavour: u64) -> String {
         }
         else if roll < 92 {
             let streams: Vec<usize> = g.kinds.iter().enumerate().filter(|(_, k)| *k == "sd" || *k == "sa").map(|(i, _)| i).collect();
-            if let Some(&o) = streams.get(rng.below(streams.len().max(1) as u64) as usize) { if g.kinds[o] == "sd" && rng.chance(1, 6) { s.push(format!("C:{}", o)); } else if rng.chance(3, 4) { s.push(format!("N:{}", o)); } else { s.push(format!("F:{}", o)); } } else { s.push("A:1".into()); }
+            if let Some(&o) = streams.get(rng.below(streams.len().max(1) as u64) as usize) { if rng.chance(1, 6) { s.push(format!("C:{}", o)); } else if rng.chance(3, 4) { s.push(format!("N:{}", o)); } else { s.push(format!("F:{}", o)); } } else { s.push("A:1".into()); }
         } else if roll < 97 && flavour == 3 && !ended {
             s.push(format!("X:{}", *rng.pick(&["eof", "garbage", "rderr", "wrerr", "eof"]))); ended = true;
         } else if flavour == 3 && rng.chance(1, 2) { s.push("H".into()); } else { s.push("A:1".into()); }
